@@ -1,4 +1,5 @@
 import MosdnsVerif.Model.C01Exec
+import MosdnsVerif.Gen.FnConn
 
 /-! The executable hash-map state refines the model state. -/
 namespace Refine.C01
@@ -79,5 +80,30 @@ theorem run_abs (tries : Nat) (ls : List Label) : ∀ x : XPipe, (xrun tries x l
     cases hx : x.step tries l with
     | none => rw [hx] at this; simp only [Option.map_none] at this; rw [← this]; simp
     | some x' => rw [hx] at this; simp only [Option.map_some] at this; rw [← this]; exact ih x'
+
+/-! ## the id search, one try at a time
+
+The body of `addQueueC`'s search loop is regenerated (T1): take `nextQid`, advance the 16-bit counter,
+skip the id if it is still in the waiter table. -/
+
+theorem try_spec (q0 : UInt16) (next : Nat) (h : next < 65536) (dup : Bool) :
+    let r := Gen.addQueueTry q0 (UInt16.ofNat next) dup
+    r.1 = !dup ∧ r.2.1.toNat = next ∧ r.2.2.toNat = (next + 1) % idSpace := by
+  have e : (UInt16.ofNat next).toNat = next := by simp [UInt16.toNat_ofNat']; omega
+  have e2 : (UInt16.ofNat next + 1).toNat = (next + 1) % 65536 := by
+    rw [UInt16.toNat_add, e]; rfl
+  cases dup <;> simp [Gen.addQueueTry, e, e2, idSpace]
+
+/-- **one try of the model's id search is the regenerated loop body of `addQueueC`**, 16-bit wrap included -/
+theorem alloc_step_eq_gen (table : Nat → Option Nat) (k next : Nat) (h : next < 65536) (q0 : UInt16) :
+    alloc table (k + 1) next =
+      (let r := Gen.addQueueTry q0 (UInt16.ofNat next) (table next).isSome
+       if r.1 then (some r.2.1.toNat, r.2.2.toNat) else alloc table k r.2.2.toNat) := by
+  have sp := try_spec q0 next h (table next).isSome
+  simp only at sp
+  obtain ⟨s1, s2, s3⟩ := sp
+  simp only [alloc, s1, s2, s3]
+  cases (table next).isSome <;> simp
+
 
 end Refine.C01
